@@ -779,6 +779,19 @@ def c9(repo: Repo) -> RuleResult:
                 ty = Typer(m, fi, fi.cls)
                 recv = ty.type_of(n.func.value)
                 rc = sorted({a.cls.name for a in recv if isinstance(a, Inst)})
+                if not rc and isinstance(n.func.value, ast.Attribute):
+                    # `<definition>.bound` where the narrowing of <definition> is an early return: the declared
+                    # type of that attribute wherever a schema class declares it
+                    for c_ in m.all_classes():
+                        an_ = c_.attrs_ann.get(n.func.value.attr) if c_.rel.endswith("_ast.py") else None
+                        pf_ = c_.methods.get(n.func.value.attr) if c_.rel.endswith("_ast.py") else None
+                        if an_ is None and pf_ is not None and pf_.is_property and pf_.node.returns is not None:
+                            an_ = pf_.node.returns
+                        if an_ is not None:
+                            try:
+                                rc = sorted(set(rc) | {a.cls.name for a in Typer(m, fi, c_).ann(an_) if isinstance(a, Inst)})
+                            except Exception:
+                                pass
                 names: List[str] = []
                 arg = n.args[0] if n.args else None
                 if isinstance(arg, ast.Constant) and isinstance(arg.value, str):
@@ -1390,7 +1403,11 @@ def c5(repo: Repo) -> RuleResult:
             kinds = {(c_.name, show(c_.args[0]) if c_.name == "insert" and c_.args else "") for c_ in ins}
             front = kinds == {("insert", "0")}
             back = kinds == {("append", "")}
-            if (rev and front) or ((not rev) and back and "namespace" in it):
+            # [own] + names appended innermost first, the whole list reversed where it is joined
+            final_rev = ".join(reversed(" in shape.replace(" ", "") or "[::-1])" in shape.replace(" ", "")
+            if ((rev and front) or ((not rev) and back and "namespace" in it)) and not final_rev:
+                pass
+            elif rev and back and final_rev:
                 pass
             elif (rev and back) or ((not rev) and front):
                 f = Finding("C5", fi.rel, fi.node.lineno, fi.qual, f"iterates {it}; {sorted(kinds)}", "enclosing scope names are not joined outermost first before the definition's own name", witness="message Zoo { message Cage { message Monkey {} } } must be Zoo_Cage_Monkey", tag="inner_proto:order")
@@ -1549,7 +1566,7 @@ def c5(repo: Repo) -> RuleResult:
     try:
         from .pyflow import single_atom as _sa
 
-        flq = compiler_flow(repo, "Formatter", "renderer/formatter.py", inline=lambda n_, f_: False)
+        flq = compiler_flow(repo, "Formatter", "renderer/formatter.py", inline=lambda n_, f_: n_.startswith("_") and n_ not in ("_get_definition_name", "_get_definition_name_prefix", "_format_definition_name_inner_proto", "_get_ctx_or_raise"))
         for qn in ("format_definition_name", "format_name_related_to_definition"):
             fq = m.func("renderer/formatter.py", f"Formatter.{qn}")
             nq = 0
